@@ -455,7 +455,7 @@ JOBS = [
          preludes=['opaque.h'], globals=_DGHOSTS, defines=['VP_NMAX=1048576', 'VP_BINSMAX=1024', 'VP_AT_ASSUME'], props=['C11', 'C06', 'C14'],
          assumptions=['2-d cell index inside the block (non-linear): proved over the integers in job int_lemmas (L-cell-index) and assumed at the at() calls of add_to_2d_distribution']),
     dict(name='vegas_refine_pdf', functions=['vegas_refine_pdf', 'vegas_pdf_bin_left', 'vegas_pdf_set_bin_left', 'vegas_pdf_bins', 'vegas_pdf_dimensions'],
-         specs=['vegas_refine_pdf', 'vegas_pdf_bin_left_abs', 'vegas_pdf_set_bin_left_abs'], entry='h_vegas_refine_pdf', enforce='vegas_refine_pdf',
+         specs=['vegas_refine_pdf', 'vegas_pdf_bin_left_abs_log', 'vegas_pdf_set_bin_left_abs'], entry='h_vegas_refine_pdf', enforce='vegas_refine_pdf',
          replace=['vegas_pdf_bin_left', 'vegas_pdf_set_bin_left'], af=['vegas_refine_pdf'], structs=[dict(cls='vegas_pdf', cls_targs=['double'])],
          defines=['VP_BINSMAX=1048576', 'VP_DIMSMAX=1024'], props=['C07'], split='auto',
          assumptions=['C07.safe hypothesis: the redistribution search stops inside the grid (bin < bins assumed at each step)', 'libm pow/log: assumed contracts',
